@@ -269,7 +269,7 @@ func c20Systematic(tier string) []*Case {
 			continue
 		}
 		for _, k := range []int{4, 40} {
-			if k == 40 && tier != "thorough" && a.class != "rt-deep" && a.class != "rt-nested" {
+			if k == 40 && strings.HasPrefix(a.class, "long") {
 				continue
 			}
 			var sess []c20Line
@@ -284,6 +284,26 @@ func c20Systematic(tier string) []*Case {
 			base := replCfg(c20SessionStdin(ls))
 			base.Budget = 30000000
 			out = append(out, c20Case(sess, []sim.Config{withDelivery(base, "all")}, []string{"all"}, "repeat"))
+		}
+	}
+	// every confirmed built-in misuse and a fifth of the operator misuses as a REPL line:
+	// the session must survive and the next line must be answered
+	{
+		var lines []c20Line
+		for i, bm := range c06BuiltinMisuse {
+			lines = append(lines, c20Line{fmt.Sprintf("misuse-builtin-%d", i), "rt-misuse", bm.fn + "(" + bm.args + ");"})
+		}
+		for i := 0; i < len(c06OperatorMisuse); i += 5 {
+			lines = append(lines, c20Line{fmt.Sprintf("misuse-operator-%d", i), "rt-misuse", c06OperatorMisuse[i] + ";"})
+		}
+		probe := c20Line{"print-builtin", "print", KwPrint + " " + FnLen + "([1, 2, 3]);"}
+		for i := 0; i+2 < len(lines); i += 3 {
+			sess := []c20Line{lines[i], lines[i+1], lines[i+2], probe}
+			var ls []string
+			for _, l := range sess {
+				ls = append(ls, l.text)
+			}
+			out = append(out, c20Case(sess, []sim.Config{withDelivery(replCfg(c20SessionStdin(ls)), "all")}, []string{"all"}, "misuse"))
 		}
 	}
 	// echo
